@@ -136,6 +136,14 @@ CHECKS = {
        'STORE cannot change it.',
   note=TRUST + 'Selections are kept alive by their connection state (no GC timing). Outside: maildir new/ directory.',
   technique='bounded model checking by symbolic execution of the real session layer (z3), ghost ownership map'),
+ 'C19': dict(
+  text='(a) the real ManageSieveConnection.run on a scripted transport: each of 10 command forms with a symbolic script name, before and '
+       'after a real AUTHENTICATE PLAIN: before authentication every script command answers NO and no user\'s filter set changes, after it '
+       'only the authenticated user\'s set changes; (b) the real FilterState.run/_do_* on the dict FilterSet from an arbitrary map state '
+       '(<= 2 stored scripts with symbolic names and bytes, symbolic active choice): one and two commands with symbolic operands agree '
+       'with a dict + optional-active-name model in response code, returned bytes/listing and post-state; another user\'s set is untouched.',
+  note=TRUST + 'Names are compared only for equality (1 symbolic character each). Outside: CHECKSCRIPT/sieve compiler, STARTTLS, other backends.',
+  technique='symbolic execution of the real ManageSieve code with z3 against a map model (inductive step from an arbitrary map state)'),
  'C18': dict(
   text='Metamorphic checks by bounded symbolic execution of the real parsers: parse/serialise/re-parse identity for '
        'QuotedString, AString, Flag, Number, SequenceSet over all buffers up to the bound; LOGIN with the user id '
